@@ -387,6 +387,44 @@ pub fn gen(tier: &str, seed: u64) -> Vec<String> {
         }
         lines.extend(v2lines);
     }
+    // a chord disabled on the held layer with two enabled supersets: the backtracking branch (a key
+    // that fits no candidate arrives while several are still possible) must honour disabled-layers too
+    {
+        let t = Table { n: 4, masks: vec![0b0011, 0b0111, 0b1011], timeout: 50 };
+        for dis in [0u32, 0b001, 0b010, 0b111] {
+            let cfg = v2_cfg(&t, 0, dis, None, None);
+            for order in [[0usize, 1], [1, 0]] {
+                for intruder in [4usize, 2, 3] {
+                    for gap in [0u32, 1, 5] {
+                        for with_layer in [false, true] {
+                            let mut h = vec![];
+                            if with_layer {
+                                h.push(HEv::Press(0, codes[7]));
+                                h.push(HEv::Tick(10));
+                            }
+                            for k in order {
+                                h.push(HEv::Press(0, codes[k]));
+                                if gap > 0 {
+                                    h.push(HEv::Tick(gap));
+                                }
+                            }
+                            h.push(HEv::Press(0, codes[intruder]));
+                            h.push(HEv::Tick(20));
+                            for k in [order[0], order[1], intruder] {
+                                h.push(HEv::Release(0, codes[k]));
+                                h.push(HEv::Tick(2));
+                            }
+                            if with_layer {
+                                h.push(HEv::Release(0, codes[7]));
+                            }
+                            h.push(HEv::Tick(400));
+                            lines.push(mk_line("LAY", false, &cfg, &h));
+                        }
+                    }
+                }
+            }
+        }
+    }
     // the reachable capacity panic (DESIGN section 7 row 4): a chord that is never released, 10 times and more
     for n in [9usize, 10, 11, 12] {
         let cfg = "(defcfg concurrent-tap-hold yes)\n(defsrc a b c)\n(deflayer l0 a b c)\n(defchordsv2 (a b) c 100 all-released ())\n";
